@@ -636,10 +636,7 @@ func (v *V) value(val *m.Value, t *m.Type, locHasDefault bool, where string) {
 			}
 		default:
 			// custom scalar: any literal (documented deviation: no coercion function to consult);
-			// variables inside are not typed by either side
-			if containsVar(val) {
-				v.Abstain = append(v.Abstain, "variable-inside-custom-scalar-literal")
-			}
+			// variables inside have no expected type but still count as uses (see valueUsages)
 		}
 	case "enum":
 		if val.Kind != m.VEnum {
